@@ -39,3 +39,49 @@ Theorem C08_decryptor_slot_exact : forall V (d c : option entry) (now j : Z),
   cache_ok d' /\ cache_ok c' /\ e_epoch e = epoch KeyRefreshInterval_ns now /\ e_keys e = slots KeyRefreshInterval_ns now.
 Proof. exact decryptor_slot_exact. Qed.
 Print Assumptions C08_decryptor_slot_exact.
+
+(* ---- the AGE of the key-holding client underlay (second dimension besides the skew) ----
+   A UDP client underlay created at client time c holds the key of slot(c) and takes new sessions while
+   age <= packetUnderlayScheduleWindow_ns (measured on the compiled NewPacketUnderlay, M.gen.Consts);
+   the server, at c + age + skew, tries its three slots. *)
+Theorem C08_aged_underlay_common_key : forall c age skew : Z,
+  0 <= age -> underlay_takes_sessions packetUnderlayScheduleWindow_ns age = true -> Z.abs skew <= 60 * NS ->
+  In (epoch KeyRefreshInterval_ns c) (slots KeyRefreshInterval_ns (c + age + skew)).
+Proof. exact aged_underlay_common_key. Qed.
+Print Assumptions C08_aged_underlay_common_key.
+
+(* the whole open of a new session on an aged underlay: key found by the server, fresh minute stamp accepted by the
+   server, and the stamp of the server's reply accepted by the client *)
+Theorem C08_aged_underlay_handshake : forall c age skew : Z,
+  era (c + age) -> era (c + age + skew) ->
+  0 <= age -> underlay_takes_sessions packetUnderlayScheduleWindow_ns age = true -> Z.abs skew <= 60 * NS ->
+  open_request_ok KeyRefreshInterval_ns c (c + age) skew = true /\ timestamp_ok (c + age) (c + age + skew) = true.
+Proof. exact aged_underlay_handshake. Qed.
+Print Assumptions C08_aged_underlay_handshake.
+
+(* the window of the code is the largest safe one: every larger window admits an age inside it and a skew of at
+   most 60 s for which the server does not try the underlay's key *)
+Theorem C08_underlay_window_maximal : forall w : Z,
+  packetUnderlayScheduleWindow_ns < w ->
+  exists c age skew, 0 <= age /\ underlay_takes_sessions w age = true /\ Z.abs skew <= 60 * NS /\
+                     ~ In (epoch KeyRefreshInterval_ns c) (slots KeyRefreshInterval_ns (c + age + skew)).
+Proof. exact underlay_window_maximal. Qed.
+Print Assumptions C08_underlay_window_maximal.
+
+(* in particular a window of one whole refresh interval ("the receiver tries three slots") is refuted by a witness:
+   underlay created 1 ns before a slot change, 90 s old, server 60 s ahead *)
+Theorem C08_full_refresh_window_refuted :
+  exists c age skew, 0 <= age /\ underlay_takes_sessions KeyRefreshInterval_ns age = true /\ Z.abs skew <= 60 * NS /\
+                     ~ In (epoch KeyRefreshInterval_ns c) (slots KeyRefreshInterval_ns (c + age + skew)) /\
+                     key_found KeyRefreshInterval_ns (epoch KeyRefreshInterval_ns c) (c + age + skew) = false.
+Proof. exact full_refresh_window_refuted. Qed.
+Print Assumptions C08_full_refresh_window_refuted.
+
+(* TCP: a stream underlay's key is matched by the server once, on the first segment of the connection; the only
+   age is the latency between the client's key derivation (dial) and the server's read of that segment.  Sessions
+   opened later on the connection use the running stateful cipher and no time slot at all. *)
+Theorem C08_stream_first_segment_common_key : forall c latency skew : Z,
+  0 <= latency <= 60 * NS -> Z.abs skew <= 60 * NS ->
+  In (epoch KeyRefreshInterval_ns c) (slots KeyRefreshInterval_ns (c + latency + skew)).
+Proof. exact aged_key_common. Qed.
+Print Assumptions C08_stream_first_segment_common_key.
